@@ -162,8 +162,7 @@ class WriteAcrossLink:
         from rig.machine_control.machine_controller import MachineController
         mc = MachineController.__new__(MachineController)
         mc._scp_data_length = self.scp_data_length
-        mc._context_stack = __import__("collections").deque()
-        mc._context_stack.append(__import__("rig.utils.contexts", fromlist=["Context"]).Context({}))
+        __import__("rig.utils.contexts", fromlist=["ContextMixin"]).ContextMixin.__init__(mc, {})
         calls = []
         mc._send_scp = lambda *a, **k: calls.append((a, k))
         try:
